@@ -574,6 +574,8 @@ var c16R6Reviewed = map[string]string{}
 
 func init() {
 	register("C16", "C16.R6", ruleC16R6)
+	// "… and can process records without panicking": run-time index safety of what the accepted configuration builds
+	register("C16", "C07.R1", ruleC07R1)
 }
 
 func ruleC16R6(c *Ctx) {
